@@ -56,13 +56,20 @@ def run(ctx):
             base = base.replace(':', '')
         elif k == 3:
             base = r.choice(['Also described as ', 'T9N-R9W ', 'The following lands: ']) + base + r.choice(['', ' containing 40 acres more or less', ' T1S-R1E'])
+        if k == 4:
+            # single embedded section with leading / trailing / in-between text (the shape `sec_within` is meant for)
+            lead = r.choice(['That part of the NE/4 of', 'A strip of land across', 'All that portion of'])
+            trail = r.choice(['lying within the right-of-way', 'lying north of the river', 'containing 40 acres'])
+            sec = r.choice(['Sec 14', 'Section 5', 'Sec 13 - 15', 'Sections 1 and 2'])
+            base = r.choice([f'Parcel A T154N-R97W: {lead} {sec} {trail}', f'{lead} {sec} T154N-R97W {trail}',
+                             f'Also T154N-R97W {sec}: extra NE/4', f'{lead} {sec} {trail}, T154N-R97W'])
         toks = base.split(' ')
         positions = list(range(len(toks) + 1))
         if not ctx.thorough and len(positions) > 8:
             positions = sorted(set(r.below(len(toks) + 1) for _ in range(8)))
         for p in positions:
             text = ' '.join(toks[:p] + [WORD] + toks[p:])
-            mode = r.choice(MODES)
+            mode = r.choice(MODES) if k != 4 else r.choice(['sec_within', 'sec_within', 'sec_within,segment', None, 'sec_within,layout.TR_desc_S'])
             try:
                 check(rep, text, mode)
             except Exception as e:  # noqa
